@@ -279,6 +279,10 @@ class AsyncFIXConnection:
                 " order to get valid response handling"
             )
 
+        if self._socket_writer is None:
+            # disconnected while on_state_change() hook above was running
+            raise FIXConnectionError("Connection has been closed, message was not sent")
+
         encoded_msg = self._codec.encode(msg, self._session).encode("utf-8")
 
         msg_raw = encoded_msg.replace(b"\x01", b"|")
